@@ -159,7 +159,7 @@ def run(ctx, res):
         for lo, hi in core.split_range(len(masks), 48):
             tasks.append(("4.0", masks[lo:hi], (0, 1), (0, 2)))
         v4desc = "all subsets of size <=3 and their complements (%d)" % len(masks)
-    accs = core.pool_map(_task, ctx.rot(tasks))
+    accs = core.task_map(_task, ctx.rot(tasks))
     # interactive builder outputs
     b = sweep.new_acc()
     for fam in T.FAMILIES:
@@ -214,3 +214,7 @@ def replay(case):
         return bool(why), why or "builder output %r is valid" % (out,)
     why, cv = judge(case["family"], case["input"])
     return bool(why), why or "emitted %r is valid" % (cv,)
+
+
+def replay_task(case):
+    return core.replay_func_task(case)
